@@ -120,38 +120,6 @@ void h_history_get_offset(void) { LHAPM2Decoder *d; unsigned c; vg_havoc(); hist
 void h_copy_from_history(void) { LHAPM2Decoder *d; unsigned c; uint8_t *b; size_t *bl; vg_havoc(); copy_from_history(d, c, b, bl); VG_CANARY("copy_from_history"); }
 void h_read(void) { void *d; uint8_t *b; vg_havoc(); lha_pm2_decoder_read(d, b); VG_CANARY("lha_pm2_decoder_read"); }
 
-/* Bounded refuter: the real decoder from its real initial state (lha_decoder_new callocs the state, so the
-   zero-initialised arena is exact), fed at most 4 arbitrary input bytes, two reads.  No contracts are applied
-   (plain route).  Inputs live in vg_in_* so that the engine can lift them from the counterexample. */
-uint8_t vg_in_b[4];
-size_t vg_in_n;
-size_t vg_in_pos;
-size_t vg_in_cb(void *buf, size_t buf_len, void *user_data)
-{
-	uint8_t *p = (uint8_t *) buf;
-	size_t n = 0;
-	if (n < buf_len && vg_in_pos < vg_in_n) p[n++] = vg_in_b[vg_in_pos++];
-	if (n < buf_len && vg_in_pos < vg_in_n) p[n++] = vg_in_b[vg_in_pos++];
-	if (n < buf_len && vg_in_pos < vg_in_n) p[n++] = vg_in_b[vg_in_pos++];
-	if (n < buf_len && vg_in_pos < vg_in_n) p[n++] = vg_in_b[vg_in_pos++];
-	return n;
-}
-size_t (*const vg_in_cb_ptr)(void *, size_t, void *) = vg_in_cb;
-void h_refute(void)
-{
-	size_t n1, n2;
-	vg_in_b[0] = nondet_uchar(); vg_in_b[1] = nondet_uchar(); vg_in_b[2] = nondet_uchar(); vg_in_b[3] = nondet_uchar();
-	vg_in_n = nondet_size_t();
-	__CPROVER_assume(vg_in_n <= 4);
-	vg_in_pos = 0;
-	lha_pm2_decoder_init(&vg_dec, vg_in_cb, NULL);
-	n1 = lha_pm2_decoder_read(&vg_dec, vg_out);
-	__CPROVER_assert(n1 <= OUTPUT_BUFFER_SIZE, "first read returns at most max_read bytes");
-	n2 = lha_pm2_decoder_read(&vg_dec, vg_out);
-	__CPROVER_assert(n2 <= OUTPUT_BUFFER_SIZE, "second read returns at most max_read bytes");
-	VG_CANARY("refute");
-}
-
 /* The LHADecoderType initialiser ties the contracts to what lha_decoder_new allocates, and the harness
    constants to the real declarations. */
 void h_dtype(void)
